@@ -93,6 +93,8 @@ class Hpm(object):
             except CompletionCodeError as e:
                 if e.cc == CC_GET_COMP_PROP_INVALID_PROPERTIES_SELECTOR:
                     continue
+                else:
+                    raise
         return properties
 
     def find_component_id_by_descriptor(self, descriptor):
